@@ -61,7 +61,8 @@ PREIMPORT = ["holopy", "holopy.scattering", "holopy.inference"]
 
 PRIMES = [2.5, 3.25, 5.125, 7.5, 11.25, 13.125, 17.5, 19.25, 23.125, 29.5,
           31.25, 37.125, 41.5, 43.25]
-NAMINGS = ["u", "own", "dup", "auto", "dup0"]
+NAMINGS = ["u", "own", "dup", "auto", "short", "dup0"]
+NAMINGS_SHORT = ["u", "dup", "short"]
 WRAPS = ["b", "mul", "addq", "addb", "cplx", "sqrt", "dict", "mulS", "sqrtN"]
 MAXVIOL = 3                  # violation records kept per check per case
 
@@ -229,21 +230,22 @@ def _key(p):
 
 GROUPS = ["share", "name", "wrap", "mix"]
 # group -> list of (subset size, site list: "full" | "red" | "red<N>" = the
-# first N reduced sites, extra).  extra: wrap -> max number of wrapped uses
+# first N reduced sites, extra).  extra: wrap -> max number of wrapped uses;
+# name -> 1: the short naming alphabet NAMINGS_SHORT instead of NAMINGS
 PLAN = {
     "quick": {
         "share": [(1, "full", 0), (2, "full", 0), (3, "red", 0)],
-        "name": [(1, "red", 0), (2, "red", 0), (3, "red4", 0)],
+        "name": [(1, "red", 0), (2, "red6", 0), (3, "red4", 0)],
         "wrap": [(1, "red", 1), (2, "red6", 1)],
         "mix": [(1, "red5", 0)],
     },
     "thorough": {
         "share": [(1, "full", 0), (2, "full", 0), (3, "full", 0),
                   (4, "red", 0)],
-        "name": [(1, "red", 0), (2, "red", 0), (3, "red6", 0),
-                 (4, "red4", 0)],
+        "name": [(1, "red", 0), (2, "red", 0), (3, "red5", 0),
+                 (4, "red4", 1)],
         "wrap": [(1, "red", 1), (2, "red", 2), (3, "red6", 1)],
-        "mix": [(1, "red", 0), (2, "red5", 0)],
+        "mix": [(1, "red", 0), (2, "red4", 0)],
     },
 }
 
@@ -265,8 +267,12 @@ def _programs_of_subset(sname, group, sub, extra):
     """-> (programs, number removed by the side conditions)"""
     out, removed = [], 0
 
+    composite = STRUCTS[sname]["tree"][0] != "S"
+
     def add(p):
         nonlocal removed
+        if "short" in p["names"] and not composite:
+            return                  # identical to "auto" without members
         if _side_ok(p["s"], p["sites"], p["blocks"], p["wraps"]):
             out.append(p)
         else:
@@ -276,8 +282,12 @@ def _programs_of_subset(sname, group, sub, extra):
         nb = max(part) + 1
         if group == "share":
             add(_prog(sname, sub, part))
+            if nb == 2 and len(sub) == 2:
+                # separately defined but value-equal priors stay separate
+                add(_prog(sname, sub, part, eq=[0] * nb))
         elif group == "name":
-            for nm in itertools.product(NAMINGS, repeat=nb):
+            for nm in itertools.product(NAMINGS_SHORT if extra else NAMINGS,
+                                        repeat=nb):
                 if any(x != "u" for x in nm):
                     add(_prog(sname, sub, part, names=nm))
         elif group == "wrap":
@@ -462,11 +472,16 @@ def _build(p):
             names.append("dup")
         elif how == "dup0":
             names.append("dup_0")
-        else:                   # like an automatically generated name
+        else:
+            # like an automatically generated name: the place of another
+            # prior ("auto"), or that place without its member prefix, which
+            # is what a prior shared by several members may be called
+            # ("short", e.g. "r" or "center.0")
             mine = {s for s, bb in zip(p["sites"], p["blocks"]) if bb == k}
             other = [s for s in p["sites"] if s not in mine] + \
                     [s[0] for s in sites if s[0] not in mine]
-            names.append(other[0])
+            names.append(other[0] if how == "auto"
+                         else other[0].rsplit(":", 1)[-1])
     b.groups = list(p["eq"])
     b.priors = [_mk_prior(b.groups[k], names[k]) for k in range(nb)]
     b.f, b.uses, exprs = {}, {}, {}
@@ -1190,10 +1205,16 @@ def _run_tie(case, cs):
            if x["id"] == case["layout"]][0]
     prog = lay["prog"]
     tag0 = "tie:" + lay["id"]
-    b0 = _build(prog)
-    root_n2b = _match_by_reach(b0, cs.ck)
+    try:
+        b0 = _build(prog)
+        root_n2b = _match_by_reach(b0, cs.ck)
+        root_names, root_form = _canon(b0.model)
+    except Exception as e:                     # noqa
+        cs.bad("api-exception", "%s: fresh model: %s: %s" %
+               (tag0, type(e).__name__, e),
+               tb=traceback.format_exc()[-1500:])
+        return "exception", {}
     groups = b0.groups
-    root_names, root_form = _canon(b0.model)
     if sorted(root_n2b) != sorted(root_names):
         cs.bad("one-per-prior", "%s: fresh model: parameters %r cannot be "
                "matched to the priors by the places they reach" %
@@ -1217,9 +1238,15 @@ def _run_tie(case, cs):
             m = b.model
             names, form = _canon(m)
             # ---- invariant ------------------------------------------------
-            fp = _check_state(cs, b, ref.full_rep(), ref.n2b, tag,
-                              light=True)
-            _sharing_check(cs, b, ref.full_rep(), tag)
+            try:
+                fp = _check_state(cs, b, ref.full_rep(), ref.n2b, tag,
+                                  light=True)
+                _sharing_check(cs, b, ref.full_rep(), tag)
+            except Exception as e:             # noqa
+                cs.bad("api-exception", "%s: %s: %s" %
+                       (tag, type(e).__name__, e),
+                       tb=traceback.format_exc()[-1500:])
+                fp = "exception"
             fps.append(fp)
             part = ref.partition()
             if part in by_partition:
@@ -1563,7 +1590,12 @@ def _run_rt(case, cs):
     ck.trans += 2
     cs.ok("parameters-deterministic", _norm(p1) == _norm(p2),
           "%s: two reads of .parameters differ" % tag)
-    c = s.from_parameters(p1)
+    try:
+        c = s.from_parameters(p1)
+    except Exception as e:                     # noqa
+        cs.bad("roundtrip-raised", "%s: from_parameters(parameters) raised "
+               "%s: %s" % (tag, type(e).__name__, e))
+        return "raised", {}
     ck.trans += 1
     cs.ok("parameters-read-pure", _norm(s) == before,
           "%s: reading .parameters / from_parameters changed the original"
